@@ -7,5 +7,5 @@ func Core() *Profile {
 
 // AllProfiles lists every profile (used by checks that want any program the generator can produce).
 func AllProfiles() []*Profile {
-	return []*Profile{Core(), Calls(), Closures(), Meta(), Errors(), Coroutines()}
+	return []*Profile{Core(), Calls(), Closures(), Meta(), Errors(), Coroutines(), Lines()}
 }
